@@ -142,8 +142,15 @@ Definition sets_current (sel : list str) : bool :=
   | [] => true
   end.
 
-Fixpoint eval_node (parent : option (list part)) (sc : scope) (n : node) {struct n} : outcome (list obj * scope) :=
+(* how a mixin call is carried out is a parameter: [callf name args parent scope] *)
+Definition call_handler := str -> list (list str) -> option (list part) -> scope -> outcome (list obj * scope).
+Definition no_calls : call_handler := fun name _ _ _ => RError $"SyntaxError" ($"NameError " ++ name).
+
+Fixpoint eval_node_g (callf : call_handler) (parent : option (list part)) (sc : scope) (n : node) {struct n} : outcome (list obj * scope) :=
   match n with
+  | NMixin _ _ _ => ROk ([], sc)                 (* a definition prints nothing (registered before evaluation) *)
+  | NCall name args =>
+      rbind (rmap_list (eval_value value_fuel sc) args) (fun vals => callf name vals parent sc)
   | NProp name val imp =>
       rbind (eval_value value_fuel sc (preprocess name val)) (fun v => ROk ([OProp name v imp], sc))
   | NVar name val => ROk ([OVar], add_variable name val sc)
@@ -152,7 +159,7 @@ Fixpoint eval_node (parent : option (list part)) (sc : scope) (n : node) {struct
       let fix go (sc1 : scope) (l : list node) : outcome (list obj) :=
         match l with
         | [] => ROk []
-        | c :: r => rbind (eval_node parent sc1 c) (fun '(os, sc2) => rbind (go sc2 r) (fun rest => ROk (os ++ rest)))
+        | c :: r => rbind (eval_node_g callf parent sc1 c) (fun '(os, sc2) => rbind (go sc2 r) (fun rest => ROk (os ++ rest)))
         end in
       rbind (go (push sc) body) (fun inner =>
         let props := filter (fun o => negb (obj_is_block o)) inner in
@@ -165,7 +172,7 @@ Fixpoint eval_node (parent : option (list part)) (sc : scope) (n : node) {struct
       let fix go (sc1 : scope) (l : list node) : outcome (list obj) :=
         match l with
         | [] => ROk []
-        | c :: r => rbind (eval_node child_parent sc1 c) (fun '(os, sc2) => rbind (go sc2 r) (fun rest => ROk (os ++ rest)))
+        | c :: r => rbind (eval_node_g callf child_parent sc1 c) (fun '(os, sc2) => rbind (go sc2 r) (fun rest => ROk (os ++ rest)))
         end in
       rbind (go (push sc) body) (fun inner =>
         let props := filter (fun o => negb (obj_is_block o)) inner in
@@ -186,11 +193,78 @@ Fixpoint eval_node (parent : option (list part)) (sc : scope) (n : node) {struct
         ROk (self ++ siblings, sc))
   end.
 
-Fixpoint eval_units (sc : scope) (l : list node) : outcome (list obj) :=
+Fixpoint eval_units_g (callf : call_handler) (sc : scope) (l : list node) : outcome (list obj) :=
   match l with
   | [] => ROk []
-  | c :: r => rbind (eval_node None sc c) (fun '(os, sc2) => rbind (eval_units sc2 r) (fun rest => ROk (os ++ rest)))
+  | c :: r => rbind (eval_node_g callf None sc c) (fun '(os, sc2) => rbind (eval_units_g callf sc2 r) (fun rest => ROk (os ++ rest)))
   end.
+Notation eval_node := (eval_node_g no_calls).
+Notation eval_units := (eval_units_g no_calls).
+
+(* ---- mixins: Deferred.parse / Mixin.call ---- *)
+Record mixin_def := MkMixin { m_name : str; m_params : list (str * option (list vtok)); m_body : list node }.
+
+(* Mixin.parse_args: positional pairing (zip_longest); a parameter without argument takes its default; a missing
+   argument without default means this definition does not apply *)
+Fixpoint bind_params (params : list (str * option (list vtok))) (args : list (list str)) (sc : scope) : option scope :=
+  match params with
+  | [] => Some sc
+  | (p, dflt) :: pr =>
+      match args with
+      | a :: ar => bind_params pr ar (add_variable p (map VT a) sc)
+      | [] => match dflt with
+              | Some d => bind_params pr [] (add_variable p d sc)
+              | None => None
+              end
+      end
+  end.
+
+Definition arguments_value (args : list (list str)) : list vtok :=
+  flat_map (fun a => map VT a ++ [VT blank_tok]) args.
+
+Section Calls.
+  Variable defs : list mixin_def.
+  Fixpoint eval_body (callf : call_handler) (parent : option (list part)) (sc : scope) (body : list node) : outcome (list obj * scope) :=
+    match body with
+    | [] => ROk ([], sc)
+    | c :: r => rbind (eval_node_g callf parent sc c) (fun '(os, sc2) =>
+                  rbind (eval_body callf parent sc2 r) (fun '(rest, sc3) => ROk (os ++ rest, sc3)))
+    end.
+
+  (* the first same-named definition whose parameters can be bound and whose body yields something is used *)
+  Fixpoint try_defs (callrec : call_handler) (name : str) (args : list (list str)) (parent : option (list part)) (sc : scope)
+    (ds : list mixin_def) : outcome (list obj * scope) :=
+    match ds with
+    | [] => ROk ([], sc)                    (* an unknown mixin is silently dropped *)
+    | d :: rest =>
+        if str_eqb (m_name d) name then
+          match bind_params (m_params d) args sc with
+          | Some sc1 =>
+              let sc2 := add_variable $"@arguments" (arguments_value args) sc1 in
+              match m_body d with
+              | [] => try_defs callrec name args parent sc rest
+              | body => eval_body callrec parent sc2 body
+              end
+          | None => try_defs callrec name args parent sc rest
+          end
+        else try_defs callrec name args parent sc rest
+    end.
+
+  Fixpoint call_mixin (fuel : nat) (name : str) (args : list (list str)) (parent : option (list part)) (sc : scope)
+    {struct fuel} : outcome (list obj * scope) :=
+    match fuel with
+    | O => RError $"SyntaxError" ($"NameError " ++ name)
+    | S f => try_defs (call_mixin f) name args parent sc defs
+    end.
+End Calls.
+
+Definition collect_defs (units : list node) : list mixin_def :=
+  flat_map (fun n => match n with
+                     | NMixin name params body => [MkMixin name params body]
+                     | NBlock [name] body => [MkMixin name [] body]
+                     | NBlock [name; [" "%char]] body => [MkMixin name [] body]        (* an ordinary rule with a simple selector can be called too *)
+                     | _ => []
+                     end) units.
 
 (* the global frame as the first pass leaves it: every top-level variable, the last definition winning *)
 Definition initial_scope (units : list node) : scope :=
@@ -199,7 +273,9 @@ Definition initial_scope (units : list node) : scope :=
 Definition compile_nodes (o : opts) (units : list node) : outcome str :=
   match fills_of o with
   | None => REscaped $"NoSuchOptions"
-  | Some fl => rbind (eval_units (initial_scope units) units) (fun objs => ROk (format fl objs))
+  | Some fl =>
+      let defs := collect_defs units in
+      rbind (eval_units_g (call_mixin defs (S Gen.PLimits.mixin_depth_limit)) (initial_scope units) units) (fun objs => ROk (format fl objs))
   end.
 
 (* for the correspondence files *)
